@@ -521,6 +521,10 @@ func parentMain(h *Harness) int {
 		_ = os.WriteFile(path, data, 0o644)
 		fmt.Printf("VIOLATION property=%s replay=%s\n  key=%s\n  %s\n", h.Prop, path, v.Key, strings.ReplaceAll(v.Desc, "\n", "\n  "))
 	}
+	if nv == 0 && nk == 0 && m.Counters["unconfirmed_violations"] > 0 {
+		fmt.Printf("ENGINE-ERROR property=%s\n%d oracle failure(s) did not recur when re-executed and none was confirmed: %s\n", h.Prop, m.Counters["unconfirmed_violations"], m.Notes["unconfirmed_violation"])
+		return 2
+	}
 	if len(m.Samples) == 0 {
 		fmt.Printf("ENGINE-ERROR property=%s\nthe harness recorded no sample case (c.Sample): the evidence file would be invalid\n", h.Prop)
 		return 2
